@@ -41,8 +41,9 @@ type hop struct {
 }
 
 type hcase struct {
-	Ops  []hop  `json:"ops"`
-	Kind string `json:"kind"`
+	Ops    []hop  `json:"ops"`
+	Kind   string `json:"kind"`
+	Scheme int    `json:"naming_scheme"` // index into namings
 }
 
 type obs struct {
@@ -52,10 +53,38 @@ type obs struct {
 	bad   []string
 }
 
-func idxName(c, i int) string { return fmt.Sprintf("c%dx%d", c, i) }
-func domName(d int) string    { return fmt.Sprintf("dom%d", d) }
-func keyName(k int) string    { return fmt.Sprintf("key%d", k) }
-func valName(v int) string    { return fmt.Sprintf("val%d", v) }
+// The model abstracts strings to ids; it is sound only if Hydrex treats DIFFERENT strings as
+// different names.  So the strings behind the ids are chosen to be as confusable as possible:
+// variants in letter case, surrounding / inner whitespace, punctuation, prefixes of each other,
+// long names, non-ASCII letters.
+type naming struct {
+	Idx, Dom, Key, Val []string
+}
+
+var long200 = strings.Repeat("k", 200)
+
+var namings = []naming{
+	{Idx: []string{"0", "1"}, Dom: []string{"dom0", "dom1", "dom2"}, Key: []string{"key0", "key1", "key2", "key3"}, Val: []string{"val0", "val1", "val2", "val3"}},
+	{Idx: []string{"a", "A"}, Dom: []string{"site", "SITE", "Site"}, Key: []string{"seo", "SEO", "Seo", "sEO"}, Val: []string{"on", "ON", "On", "oN"}},
+	{Idx: []string{"p-q", "p_q"}, Dom: []string{"d e", "d  e", " d e"}, Key: []string{"tag", "tag ", " tag", "t ag"}, Val: []string{"y", " y", "y ", "y\t"}},
+	{Idx: []string{"n", "nn"}, Dom: []string{"d", "dd", "d.d"}, Key: []string{"k", "kk", long200, "k\u00e9"}, Val: []string{"v", "vv", "\u00e9", "\u00c9"}},
+	{Idx: []string{"I\u0307", "i"}, Dom: []string{"\u00c4b", "\u00e4b", "ab"}, Key: []string{"Stra\u00dfe", "STRASSE", "strasse", "Strasse"}, Val: []string{"0", "00", "+0", "0.0"}},
+}
+
+func (c *hcase) nm() naming             { return namings[c.Scheme%len(namings)] }
+func (c *hcase) idxName(ci, i int) string { return fmt.Sprintf("c%dx%s", ci, c.nm().Idx[i]) }
+func (c *hcase) domName(d int) string     { return c.nm().Dom[d] }
+func (c *hcase) keyName(k int) string     { return c.nm().Key[k] }
+func (c *hcase) valName(v int) string     { return c.nm().Val[v] }
+
+func idOf(list []string, s string) int {
+	for i, x := range list {
+		if x == s {
+			return i
+		}
+	}
+	return -1
+}
 
 func parseSuffix(s, prefix string) int {
 	if !strings.HasPrefix(s, prefix) {
@@ -88,6 +117,9 @@ func genCase(r *common.Rng, maxOps int, allowPause bool) hcase {
 	c := hcase{Kind: "random"}
 	if focus {
 		c.Kind = "focused"
+	}
+	if !r.Chance(30) { // 70%: names that differ only in case / whitespace / punctuation / length / non-ASCII letters
+		c.Scheme = 1 + r.Intn(len(namings)-1)
 	}
 	for j := 0; j < n; j++ {
 		o := hop{I: r.Intn(nIdx), D: r.Intn(nDom)}
@@ -125,13 +157,24 @@ func corpus() []hcase {
 		return hop{Save: true, I: i, D: d, Items: m, Old: []int{0, 1, 2, 3}, New: []int{0, 1, 2, 3}}
 	}
 	ds := func(i, d int) hop { return hop{I: i, D: d, Old: []int{}, New: []int{}} }
-	return []hcase{
+	cs := []hcase{
 		{Kind: "corpus", Ops: []hop{sv(0, 0, 0, 0), sv(0, 0, 0, 1)}},                          // k0:a then k0:b
 		{Kind: "corpus", Ops: []hop{sv(0, 0, 0, 0, 1, 1), sv(0, 1, 0, 2), sv(0, 0, 1, 3, 2, 0)}}, // add/remove/change
 		{Kind: "corpus", Ops: []hop{sv(0, 0, 0, 0, 1, 1), sv(0, 1, 0, 0), ds(0, 0), sv(0, 0, 1, 2)}},
 		{Kind: "corpus", Ops: []hop{sv(1, 2, 0, 0, 1, 1, 2, 2, 3, 3), sv(1, 2), sv(1, 2, 3, 1)}},
 		{Kind: "corpus", Ops: []hop{ds(0, 0), sv(0, 0, 2, 2), sv(0, 0, 2, 2), sv(0, 0, 2, 3), sv(0, 0, 2, 2)}},
 	}
+	// confusable names must stay distinct: per naming scheme, (a) a domain holds all key variants and a
+	// later Save drops some; (b) domain variants share a key and one is destroyed; (c) index-name
+	// variants hold the same domain/key and one is destroyed; (d) a value changes to a variant of itself
+	for sc := 1; sc < len(namings); sc++ {
+		cs = append(cs,
+			hcase{Kind: "corpus-names", Scheme: sc, Ops: []hop{sv(0, 0, 0, 0, 1, 1, 2, 2, 3, 3), sv(0, 0, 1, 1, 3, 3), sv(0, 0, 3, 3)}},
+			hcase{Kind: "corpus-names", Scheme: sc, Ops: []hop{sv(0, 0, 0, 0), sv(0, 1, 0, 0), sv(0, 2, 0, 0), ds(0, 1), sv(0, 2)}},
+			hcase{Kind: "corpus-names", Scheme: sc, Ops: []hop{sv(0, 0, 0, 0, 1, 0), sv(1, 0, 0, 0, 1, 0), ds(1, 0), sv(0, 0, 1, 0)}},
+			hcase{Kind: "corpus-names", Scheme: sc, Ops: []hop{sv(0, 0, 0, 0, 1, 1), sv(0, 0, 0, 1, 1, 2), sv(0, 0, 0, 2, 1, 3), sv(0, 0, 0, 3, 1, 0)}})
+	}
+	return cs
 }
 
 func runCase(hx hydrex.Hydrex, ci int, c hcase) obs {
@@ -144,20 +187,20 @@ func runCase(hx hydrex.Hydrex, ci int, c hcase) obs {
 		if o.Save {
 			items := map[string]*hydrex.CoreData{}
 			for k, v := range o.Items {
-				items[keyName(k)] = &hydrex.CoreData{Key: keyName(k), Value: valName(v), CreatedAt: time.Now()}
+				items[c.keyName(k)] = &hydrex.CoreData{Key: c.keyName(k), Value: c.valName(v), CreatedAt: time.Now()}
 			}
-			hx.Save(ctx, idxName(ci, o.I), domName(o.D), items)
+			hx.Save(ctx, c.idxName(ci, o.I), c.domName(o.D), items)
 		} else {
-			hx.Destroy(ctx, idxName(ci, o.I), domName(o.D))
+			hx.Destroy(ctx, c.idxName(ci, o.I), c.domName(o.D))
 		}
 	}
 	ob := obs{core: map[[2]int]map[int]string{}, coreN: map[[2]int]int{}, index: map[[2]int][]int{}}
 	for i := 0; i < nIdx; i++ {
 		for d := 0; d < nDom; d++ {
-			rows := hx.GetCoreData(ctx, idxName(ci, i), domName(d))
+			rows := hx.GetCoreData(ctx, c.idxName(ci, i), c.domName(d))
 			m := map[int]string{}
 			for _, row := range rows {
-				k := parseSuffix(row.Key, "key")
+				k := idOf(c.nm().Key, row.Key)
 				if k < 0 {
 					ob.bad = append(ob.bad, fmt.Sprintf("core (%d,%d): foreign key %q", i, d, row.Key))
 					k = 1000 + len(ob.bad)
@@ -171,10 +214,10 @@ func runCase(hx hydrex.Hydrex, ci int, c hcase) obs {
 			ob.coreN[[2]int{i, d}] = len(rows)
 		}
 		for k := 0; k < nKey; k++ {
-			rows := hx.GetIndexData(ctx, idxName(ci, i), keyName(k))
+			rows := hx.GetIndexData(ctx, c.idxName(ci, i), c.keyName(k))
 			var ds []int
 			for _, row := range rows {
-				d := parseSuffix(row.Domain, "dom")
+				d := idOf(c.nm().Dom, row.Domain)
 				if d < 0 {
 					ob.bad = append(ob.bad, fmt.Sprintf("index (%d,%d): foreign domain %q", i, k, row.Domain))
 					d = 1000 + len(ob.bad)
@@ -204,17 +247,17 @@ func rangeList(n int) string {
 	return nlist(xs)
 }
 
-func valID(s string) int {
-	v := parseSuffix(s, "val")
+func (hc *hcase) valID(s string) int {
+	v := idOf(hc.nm().Val, s)
 	if v < 0 {
 		return 999 // a value Hydrex never was given
 	}
 	return v
 }
 
-// "hydraideCoreData/c12x1/dom2" -> Coq sname; ok=false for names Hydrex should never touch
-func snameTerm(sw string) (string, bool) {
-	p := strings.Split(sw, "/")
+// "hydraideCoreData/c12x<idx>/<domain>" -> Coq sname; ok=false for names Hydrex should never touch
+func (hc *hcase) snameTerm(sw string) (string, bool) {
+	p := strings.SplitN(sw, "/", 3)
 	if len(p) != 3 {
 		return "", false
 	}
@@ -222,47 +265,47 @@ func snameTerm(sw string) (string, bool) {
 	if x < 0 {
 		return "", false
 	}
-	i, err := strconv.Atoi(p[1][x+1:])
-	if err != nil {
+	i := idOf(hc.nm().Idx, p[1][x+1:])
+	if i < 0 {
 		return "", false
 	}
 	switch p[0] {
 	case "hydraideCoreData":
-		if d := parseSuffix(p[2], "dom"); d >= 0 {
+		if d := idOf(hc.nm().Dom, p[2]); d >= 0 {
 			return fmt.Sprintf("(core_name %d %d)", i, d), true
 		}
 	case "hydraideIndex":
-		if k := parseSuffix(p[2], "key"); k >= 0 {
+		if k := idOf(hc.nm().Key, p[2]); k >= 0 {
 			return fmt.Sprintf("(idx_name %d %d)", i, k), true
 		}
 	}
 	return "", false
 }
 
-func rowID(sw, key string) int {
+func (hc *hcase) rowID(sw, key string) int {
 	if strings.HasPrefix(sw, "hydraideCoreData/") {
-		if k := parseSuffix(key, "key"); k >= 0 {
+		if k := idOf(hc.nm().Key, key); k >= 0 {
 			return k
 		}
-	} else if d := parseSuffix(key, "dom"); d >= 0 {
+	} else if d := idOf(hc.nm().Dom, key); d >= 0 {
 		return d
 	}
 	return 998
 }
 
-func rowVal(sw, v string) int {
+func (hc *hcase) rowVal(sw, v string) int {
 	if strings.HasPrefix(sw, "hydraideCoreData/") {
-		return valID(v)
+		return hc.valID(v)
 	}
 	return 0
 }
 
-func logTerm(log []call) (string, []string) {
+func (hc *hcase) logTerm(log []call) (string, []string) {
 	var out, bad []string
 	for _, c := range log {
-		sn, ok := snameTerm(c.Swamp)
+		sn, ok := hc.snameTerm(c.Swamp)
 		if !ok {
-			bad = append(bad, "call on unexpected swamp "+c.Swamp)
+			bad = append(bad, fmt.Sprintf("call on a swamp that is none of the case's names: %q", c.Swamp))
 			continue
 		}
 		switch c.Kind {
@@ -272,19 +315,19 @@ func logTerm(log []call) (string, []string) {
 			}
 			rows := make([]string, len(c.Keys))
 			for i, k := range c.Keys {
-				rows[i] = common.Pair(strconv.Itoa(rowID(c.Swamp, k)), strconv.Itoa(rowVal(c.Swamp, c.Vals[k])))
+				rows[i] = common.Pair(strconv.Itoa(hc.rowID(c.Swamp, k)), strconv.Itoa(hc.rowVal(c.Swamp, c.Vals[k])))
 			}
 			out = append(out, "CRead "+sn+" "+common.List(rows))
 		case "set":
 			rows := make([]string, len(c.Keys))
 			for i, k := range c.Keys {
-				rows[i] = common.Pair(strconv.Itoa(rowID(c.Swamp, k)), strconv.Itoa(rowVal(c.Swamp, c.Vals[k])))
+				rows[i] = common.Pair(strconv.Itoa(hc.rowID(c.Swamp, k)), strconv.Itoa(hc.rowVal(c.Swamp, c.Vals[k])))
 			}
 			out = append(out, "CSet "+sn+" "+common.List(rows))
 		case "del":
 			ks := make([]int, len(c.Keys))
 			for i, k := range c.Keys {
-				ks[i] = rowID(c.Swamp, k)
+				ks[i] = hc.rowID(c.Swamp, k)
 			}
 			out = append(out, "CDel "+sn+" "+nlist(ks))
 		case "destroy":
@@ -324,11 +367,11 @@ func caseTerm(c hcase, ob obs, log []call) (string, []string) {
 			sort.Ints(keys)
 			its := make([]string, 0, len(keys))
 			for _, k := range keys {
-				its = append(its, common.Pair(strconv.Itoa(k), strconv.Itoa(valID(m[k]))))
+				its = append(its, common.Pair(strconv.Itoa(k), strconv.Itoa(c.valID(m[k]))))
 			}
 			// a key returned twice is reported by repeating it (NoDup check on the Coq side)
 			for x := len(m); x < ob.coreN[[2]int{i, d}] && len(keys) > 0; x++ {
-				its = append(its, common.Pair(strconv.Itoa(keys[0]), strconv.Itoa(valID(m[keys[0]]))))
+				its = append(its, common.Pair(strconv.Itoa(keys[0]), strconv.Itoa(c.valID(m[keys[0]]))))
 			}
 			core = append(core, fmt.Sprintf("((%d, %d), %s)", i, d, common.List(its)))
 		}
@@ -336,7 +379,7 @@ func caseTerm(c hcase, ob obs, log []call) (string, []string) {
 			index = append(index, fmt.Sprintf("((%d, %d), %s)", i, k, nlist(ob.index[[2]int{i, k}])))
 		}
 	}
-	lt, bad := logTerm(log)
+	lt, bad := c.logTerm(log)
 	return fmt.Sprintf("{| c_ops := %s;\n     c_idx := %s; c_dom := %s; c_key := %s;\n     c_core := %s;\n     c_index := %s;\n     c_log := %s |}",
 		common.List(ops), rangeList(nIdx), rangeList(nDom), rangeList(nKey), common.List(core), common.List(index), lt), bad
 }
@@ -414,10 +457,19 @@ func main() {
 		cases = append(cases, genCase(rng.Fork("case"), maxOps, true))
 	}
 	res := make([]obs, len(cases))
-	common.Parallel(len(cases), 16, func(i int) { res[i] = runCase(hx, i, cases[i]) })
+	// a second Hydrex instance on the same SDK (registers the patterns again): every third case uses it
+	hx2 := hydrex.New(sdk)
+	common.Parallel(len(cases), 16, func(i int) {
+		h := hx
+		if i%3 == 2 {
+			h = hx2
+		}
+		res[i] = runCase(h, i, cases[i])
+	})
 	for i, c := range cases {
 		nt := classify(run, c)
 		run.Hist("kind_" + c.Kind)
+		run.Hist(fmt.Sprintf("naming_scheme_%d", c.Scheme))
 		log := rec.logs[fmt.Sprintf("c%d", i)]
 		term, bad := caseTerm(c, res[i], log)
 		run.HistN("catalog_calls", len(log))
